@@ -95,8 +95,9 @@ def teardown():
 class SymInputs:
     """Inputs drawn from the solver (inside a shapesym run)."""
 
-    def __init__(self, N, kinds, aro_opts=(0,)):
+    def __init__(self, N, kinds, aro_opts=(0,), global_flavour=False):
         self.N = N
+        self.global_flavour = global_flavour
         self.kinds = kinds
         self.aro_opts = list(aro_opts)
         self._ar = {}
@@ -114,7 +115,8 @@ class SymInputs:
         return shapesym.choose(f's_{j}', [0, 1])
 
     def flavour(self, j):
-        return shapesym.choose(f'fl_{j}', [0, 1, 2])
+        # one flavour per consumer, or (larger N) one for the whole pipeline
+        return shapesym.choose('fl' if self.global_flavour else f'fl_{j}', [0, 1, 2])
 
     def ar(self, j):
         if j not in self._ar:
@@ -143,7 +145,7 @@ class ConcreteInputs:
         return int(self.d.get(f's_{j}', 0))
 
     def flavour(self, j):
-        return int(self.d.get(f'fl_{j}', 0))
+        return int(self.d['fl']) if 'fl' in self.d else int(self.d.get(f'fl_{j}', 0))
 
     def ar(self, j):
         return bool(self.d.get(f'ar_{j}', False))
@@ -304,8 +306,10 @@ def _vars(N):
     return ev, sv
 
 
-def model_to_inputs(N, m):
+def model_to_inputs(N, m, global_flavour=False):
     d = {}
+    if global_flavour:
+        d['fl'] = shapesym.model_int(m, z3.Int('fl'))
     ev, sv = _vars(N)
     for (i, j), x in ev.items():
         d[f'e_{i}_{j}'] = shapesym.model_int(m, x)
@@ -343,7 +347,7 @@ def explore_shard(args):
            'violations': [], 'unknown': 0, 'samples': [], 'part_counts': {}, 'symbolic_parts': 0}
 
     def body():
-        inp = SymInputs(N, args['kinds'], args.get('aro', (0,)))
+        inp = SymInputs(N, args['kinds'], args.get('aro', (0,)), args.get('global_flavour', False))
         inputs_holder['inp'] = inp
         return build_and_run(N, inp)
 
@@ -368,7 +372,7 @@ def explore_shard(args):
         r, m = query(v)
         res['queries'] += 1
         if r == 'sat':
-            d = model_to_inputs(N, m)
+            d = model_to_inputs(N, m, args.get('global_flavour', False))
             bad = [k for k, f in parts.items() if not z3.is_true(m.eval(f, model_completion=True))]
             res['violations'].append({'inputs': d, 'parts': bad})
         elif r != 'unsat':
